@@ -172,6 +172,7 @@ func (w *World) Provision() error {
 		return err
 	}
 	w.V = v
+	w.settle() // the start-up pass of the ticker goroutine has run before anything else happens
 	return nil
 }
 
@@ -243,7 +244,6 @@ func (w *World) Do(st Step) string {
 		if err := w.Provision(); err != nil {
 			return "provision-error"
 		}
-		w.settle()
 		return "provisioned"
 	}
 	panic("unknown op " + st.Op)
@@ -267,17 +267,9 @@ func (w *World) settle() {
 	}
 }
 
-// primeGlobalStamp makes every non-forced refresh pass a no-op for the next interval/2: the
-// "recently finished" stamp is process-global, so without this the start-up pass of one
-// world's ticker would depend on what other worlds did.
+// primeGlobalStamp resets the process-global bookkeeping (work dir registry) before a batch of worlds.
 func primeGlobalStamp(c *Ctx) {
 	crl.VerifResetGlobals()
-	d := c.TempDir("prime")
-	v, err := NewValidator(VCfg{Mode: "crl_only", WorkDir: d, Storage: "memory", Interval: "1h"})
-	mustNoErr(err)
-	v.V.VerifCRLChecker().VerifUpdateCRLs(true)
-	v.Close()
-	os.RemoveAll(d)
 }
 
 func (w *World) Run(steps []Step) []string {
